@@ -383,6 +383,19 @@ def discharge(site, fx, policy):
                         if l.get("ty") == "u32" and policy.get("a_size"):
                             return "D-counter-u32: 32-bit counter incremented once per parsed record (assumption A-size: input < 4 GiB)"
                 return None
+            # `x = x + 1` inside a loop is the counter idiom too
+            par = site.parents[-1] if site.parents else None
+            while par is not None and par.get("k") in ("Borrow", "Deref", "Coerce") and len(site.parents) > 1:
+                par = site.parents[site.parents.index(par) - 1]
+            if par is not None and par.get("k") == "Assign" and int_lit(r) == 1 and FL.same_place(par["l"], l) and in_loop(site.parents):
+                root = F.strip(l)
+                while root.get("k") == "Field":
+                    root = F.strip(root["e"])
+                if root.get("k") in ("Var", "Upvar"):
+                    if site.ty in ("usize", "u64"):
+                        return "D-counter: 64-bit local counter incremented by 1 per loop iteration (x = x + 1 form)"
+                    if site.ty == "u32" and policy.get("a_size"):
+                        return "D-counter-u32: 32-bit counter incremented once per parsed record (assumption A-size)"
             a = bounded_index(l, fam)
             b = bounded_index(r, fam)
             if a and b and site.ty == "usize":
